@@ -9,6 +9,7 @@ Tol == 3
 E(t) == t.scenario.expr
 Lat == {-896 + 96 * i + 7 : i \in 0..18}
 LatU == {-896 + 64 * i + 7 : i \in 0..28}
+Lat3 == {-896 + 128 * i + 7 : i \in 0..14}
 Dim(e) == LET sp == SpaceOf(e) IN IF Len(sp) = 1 THEN sp[1][2] ELSE sp[1][2] + sp[2][2]
 \* lattice points (as Q) of the space of e, at parameter row prm (fine units)
 PVal(prm, free) == [n \in free |-> IF n \in DOMAIN prm THEN <<prm[n]>> ELSE <<0>>]
@@ -18,6 +19,7 @@ QsOf(e, prm) ==
     ELSE IF sp = <<<<"u", 1>>>> THEN {[val |-> [n \in DOMAIN pv \cup {"u"} |-> IF n = "u" THEN <<p>> ELSE pv[n]], w |-> 1] : p \in LatU}
     ELSE IF sp = <<<<"x", 2>>, <<"u", 1>>>> THEN {[val |-> [n \in DOMAIN pv \cup {"x", "u"} |-> IF n = "x" THEN <<p[1], p[2]>> ELSE IF n = "u" THEN <<p[3]>> ELSE pv[n]], w |-> 1]
                                                   : p \in Lat \X Lat \X {-505, -249, 7, 263, 519}}
+    ELSE IF sp = <<<<"y", 3>>>> THEN {[val |-> [n \in DOMAIN pv \cup {"y"} |-> IF n = "y" THEN <<p[1], p[2], p[3]>> ELSE pv[n]], w |-> 1] : p \in Lat3 \X Lat3 \X Lat3}
     ELSE {}
 \* coordinates of Q in space order
 Flat(e, q) == LET sp == SpaceOf(e) IN IF Len(sp) = 1 THEN q.val[sp[1][1]] ELSE q.val[sp[1][1]] \o q.val[sp[2][1]]
